@@ -91,6 +91,12 @@ namespace fastscapelib
 
             for (size_type idx : graph_impl.base_levels())
             {
+                // masked nodes are not part of the graph: no flow can reach them
+                if (graph_impl.is_masked(idx))
+                {
+                    continue;
+                }
+
                 open.emplace(pflood_node<FG, elev_t>(idx, elevation_flat(idx)));
                 closed(idx) = true;
             }
